@@ -51,7 +51,7 @@ def run(ctx):
     b13 = ctx.go_build("c13")
     ctx.harness(b13, ["-out", ctx.path("races.ndjson"), "-pout", ctx.path("x1.ndjson"),
                       "-stress", ctx.path("x2.ndjson"), "-pstress", ctx.path("x3.ndjson"), "-seed", ctx.seed,
-                      "-rand", 0, "-prand", 0, "-race", ctx.q(520, 4000), "-rounds", "ctl,ctl,ctl,take,feed,prod"],
+                      "-rand", 0, "-prand", 0, "-race", ctx.q(480, 3600), "-rounds", "ctl,ctl,ctl,take,feed,prod"],
                 traces=[ctx.path("races.ndjson")])
     races = _load(ctx, "races.ndjson")
     rj += ctx.validate(fam, "QueueWake_Trace", "QueueWake_Trace.cfg", races, label="races", chunk=40000)
